@@ -1,17 +1,24 @@
-(* Properties/C14.v — internal OS errors (label: partial).  In the model every
-   mutating library call goes through Monad.effect / effect_p /
-   Builder.back_up_and_remove, which consult the fault set; proved here: an
-   injected fault surfaces as an OSError outcome of that call and leaves the tree
-   as it was, and the frame theorem of C03 holds for EVERY fault set (so whatever
-   failed, foreign files are intact).  The post-state for the managed files
-   (rollback restores / caught errors leak nothing) is decided by T2 with the same
-   fault ordinal in model and implementation and by the T3 oracles. *)
+(* Properties/C14.v — internal OS errors (label: partial).  In the model every mutating
+   library call goes through Monad.effect / effect_p / Builder.back_up_and_remove, which
+   consult the fault set.  Proved: an injected fault surfaces as an OSError outcome of that
+   call and leaves the tree as it was; the frame theorem of C03 holds for EVERY fault set;
+   and C14_rollback_under_faults (Proofs/RollbackFaults*.v): for ANY set of injected faults
+   (mkdir, makedirs, rename, replace, rmdir, remove, both effects of the cache write), if the
+   build fails and no fault falls inside the undo itself (removal of a partial cache file +
+   _roll_back), the regular files afterwards are exactly those of the pre-state, same nodes
+   (side conditions as in C02: creatable names, condition A).  RollbackFaultsEx.v: a fault
+   inside restore_all does lose a file (so that hypothesis cannot be dropped; no
+   implementation can restore a file when the restoring call fails), and with TWO faults (cache
+   write and removal of the partial file) a truncated cache file remains - outside the
+   single-fault quantifier of the property.  NOT theorems: the directory half under faults,
+   and the caught-error clause (virtual view and final tree consistent with the call having
+   failed): T2 with the same fault ordinal in model and implementation, T3 oracles. *)
 From Coq Require Import List String Bool Arith.
 From FB.Base Require Import PyVal Fs.
 From FB.Gen Require Import JsonUtilGen.
 From FB.Spec Require Import Prog.
 From FB.Model Require Import Types Monad Builder Persist Build Run Frame.
-From FB.Proofs Require Import FrameLaws.
+From FB.Proofs Require Import FrameLaws RollbackFaultsLaws RollbackFaultsMain.
 Import ListNotations.
 
 (* a faulted mutating call raises OSError, changes only the call counter *)
@@ -23,6 +30,21 @@ Proof. intros what p f w H. unfold effect. rewrite H. reflexivity. Qed.
 Theorem C14_fault_leaves_tree : forall what p f w w' r,
   existsb (Nat.eqb (w_effects w)) (w_faults w) = true -> effect what p f w = (w', r) -> w_fs w' = w_fs w.
 Proof. intros what p f w w' r H E. rewrite (C14_fault_surfaces what p f w H) in E. inversion E; subst. reflexivity. Qed.
+
+Theorem C14_rollback_under_faults : forall cf nm vers svers root w w' e (P : path -> Prop),
+  sanitize vers = Some svers ->
+  AllTargets P root ->
+  fs_wf (w_fs w) ->
+  (forall p f, lookup (w_fs w) p = Some (NFile f) -> path_ok p = true) ->
+  (forall a t, (P t \/ t = cf \/ In t (cache_targets (old_cache_of (w_fs w) cf nm svers))) ->
+     below a t = true -> (forall f, lookup (w_fs w) a <> Some (NFile f)) /\ ~ P a) ->
+  (forall d, In d (c_dirs (old_cache_of (w_fs w) cf nm svers)) -> path_ok d = true) ->
+  run_build cf nm vers root w = (w', Done (inr e)) ->
+  exists ccd wx,
+    undo_entry cf nm svers (fun w0 => run root None [] w0) w (old_cache_of (w_fs w) cf nm svers) = Some (ccd, wx) /\
+    ((forall n, In n (w_faults w) -> n < w_effects wx) ->
+     forall p f, lookup (w_fs w') p = Some (NFile f) <-> lookup (w_fs w) p = Some (NFile f)).
+Proof. exact rollback_restores_files_faults. Qed.
 
 (* whatever faults are injected, foreign files are intact after the build *)
 Theorem C14_foreign_files_intact_under_faults : forall faults cf nm vers svers root w w' r (P : path -> Prop),
